@@ -1,0 +1,30 @@
+//go:build verif
+
+package v2
+
+import (
+	"math/big"
+
+	"github.com/iotaledger/iota.go/consts"
+	"github.com/iotaledger/iota.go/trinary"
+)
+
+// Verification hooks (build tag verif).
+
+// VerifCheckStateTrits exposes checkStateTrits.
+func VerifCheckStateTrits(l, h *[consts.HashTrinarySize]uint, sufficientTrailing int, target *big.Int) int {
+	return checkStateTrits(l, h, sufficientTrailing, target)
+}
+
+// VerifToInt exposes toInt.
+func VerifToInt(trits trinary.Trits) *big.Int { return toInt(trits) }
+
+// VerifSufficientTrailingZeros exposes sufficientTrailingZeros.
+func VerifSufficientTrailingZeros(data []byte, targetScore uint64) int {
+	return sufficientTrailingZeros(data, targetScore)
+}
+
+// VerifTargetHash exposes targetHash.
+func VerifTargetHash(data []byte, targetScore uint64) *big.Int {
+	return targetHash(data, targetScore)
+}
